@@ -5,10 +5,11 @@
 //!        netops fdpass <cases.ndjson> <workdir> [skip]   one {"ev":"fdpass",..} line per case
 //!        netops cmsgiter <vectors.ndjson> [skip]          ControlMessageIterator on given buffers
 //!        netops tryops <workdir>                          try_* calls between marker syscalls (run under strace)
+//!        netops ctors <workdir>                           mode (O_NONBLOCK, FD_CLOEXEC) of the stream every constructor hands out
 //! Every endpoint logs (op, requested, result, logical start/end sequence numbers, monotonic
 //! microseconds); payload byte p of a direction is pat(dir, p).  A SIGSEGV (control buffer is placed
 //! against a PROT_NONE page) prints {"crash":id} and exits 42; a plan in which no call completes for
-//! 15 s prints {"hang":id} and exits 43.
+//! 8 s prints {"hang":id} and exits 43.
 use std::io::{BufRead, Write as _};
 use std::sync::atomic::{AtomicI64, AtomicU64, Ordering};
 use std::sync::{Arc, Barrier};
@@ -20,7 +21,7 @@ use tiny_std::UnixString;
 use vharness::{json, Value};
 
 static CUR: AtomicI64 = AtomicI64::new(-1);
-/// number of calls completed so far: the watchdog fires only when NO call completes for 15 s
+/// number of calls completed so far: the watchdog fires only when NO call completes for 8 s
 static PROGRESS: AtomicU64 = AtomicU64::new(0);
 static IN_OP: std::sync::atomic::AtomicBool = std::sync::atomic::AtomicBool::new(false);
 
@@ -220,6 +221,44 @@ fn read_chunks(log: &mut Log, s: &mut Stream, dir: u8, n: Option<u64>, chunks: &
     }
 }
 
+/// (O_NONBLOCK set, FD_CLOEXEC set) of a descriptor, read right after its construction
+fn fd_flags(fd: i32) -> (bool, bool) {
+    unsafe { (libc::fcntl(fd, libc::F_GETFL) & libc::O_NONBLOCK != 0, libc::fcntl(fd, libc::F_GETFD) & libc::FD_CLOEXEC != 0) }
+}
+/// harness-internal rendezvous of the two endpoint threads (not code under test): a stage counter;
+/// a thread that leaves early marks itself dead so that the other never waits for it
+struct Stage {
+    stage: AtomicU64,
+    dead: std::sync::atomic::AtomicBool,
+}
+impl Stage {
+    fn reach(&self, n: u64) {
+        self.stage.fetch_max(n, Ordering::SeqCst);
+    }
+    fn wait(&self, n: u64) {
+        while self.stage.load(Ordering::SeqCst) < n && !self.dead.load(Ordering::SeqCst) {
+            std::thread::sleep(Duration::from_micros(200));
+        }
+    }
+}
+struct DeadOnDrop(Arc<Stage>);
+impl Drop for DeadOnDrop {
+    fn drop(&mut self) {
+        self.0.dead.store(true, Ordering::SeqCst);
+    }
+}
+/// One timed read while the peer is known to be silent: it has to come back, with Timeout.
+fn silent_read(log: &mut Log, s: &mut Stream, dir: u8, d_us: u64) {
+    let mut buf = [0u8; 16];
+    let st = log.start();
+    let r = guarded(|| s.read(&mut buf, Some(Duration::from_micros(d_us))));
+    let (class, errno) = res_of(&r);
+    let k = if let Ok(Ok(k)) = &r { *k } else { 0 };
+    let res = if class == "ok" && k == 0 { "eof" } else { class };
+    log.done("read_to", st, json!({"req": 16, "res": res, "n": k, "errno": errno, "dir": dir, "off": 0, "match": k == 0, "bad_at": -1,
+                                   "d": d_us as i64, "silent_peer": true}));
+}
+
 fn u64s(v: &Value) -> Vec<u64> {
     v.as_array().map(|a| a.iter().map(|x| x.as_u64().unwrap()).collect()).unwrap_or_else(|| vec![4096])
 }
@@ -239,6 +278,8 @@ fn run_stream_plan(id: usize, plan: &Value, workdir: &str) -> Value {
     let sock_path = format!("{workdir}/s{id}.sock");
     let _ = std::fs::remove_file(&sock_path);
     let listening = Arc::new(Barrier::new(2));
+    let stage = Arc::new(Stage { stage: AtomicU64::new(0), dead: std::sync::atomic::AtomicBool::new(false) });
+    let (stage_s, stage_c) = (stage.clone(), stage.clone());
     let tcp_port = Arc::new(AtomicU64::new(0));
     let plan_s = plan.clone();
     let plan_c = plan.clone();
@@ -250,6 +291,7 @@ fn run_stream_plan(id: usize, plan: &Value, workdir: &str) -> Value {
     // ---------------------------------------------------------------- server side
     let server = std::thread::spawn(move || {
         let plan = plan_s;
+        let _guard = DeadOnDrop(stage_s.clone());
         let mut log = Log { seq: seq_s, t0, evs: Vec::new() };
         sleep_ms(ms(&plan["listen_delay_ms"]));
         let st = log.start();
@@ -312,7 +354,12 @@ fn run_stream_plan(id: usize, plan: &Value, workdir: &str) -> Value {
                 "timeout" => "accept_to",
                 _ => "try_accept",
             };
-            log.done(opname, st, json!({"res": res, "errno": errno, "d": if k == "timeout" { d_us as i64 } else { -1 }, "nonblock": nonblock}));
+            let (snb, scx) = match &r {
+                Ok(Ok(Some(s))) => fd_flags(s.fd()),
+                _ => (false, false),
+            };
+            log.done(opname, st, json!({"res": res, "errno": errno, "d": if k == "timeout" { d_us as i64 } else { -1 }, "nonblock": nonblock,
+                                        "s_nonblock": snb, "s_cloexec": scx}));
             match r {
                 Ok(Ok(Some(s))) => stream = Some(s),
                 Ok(Ok(None)) => sleep_ms(1),
@@ -322,6 +369,13 @@ fn run_stream_plan(id: usize, plan: &Value, workdir: &str) -> Value {
         }
         let Some(mut s) = stream else { return log.evs };
         set_bufs(s.fd(), plan["sndbuf"].as_i64().unwrap_or(0), 0);
+        // phase 0 (TCP): a timed read on the freshly constructed stream while the peer is silent
+        if let (Some(d), Stream::T(_)) = (plan["silent_us"].as_u64(), &s) {
+            stage_s.wait(1);                 // the client holds its stream and stays silent
+            silent_read(&mut log, &mut s, 1, d);
+            stage_s.reach(2);
+            stage_s.wait(3);                 // the client's own silent read is over
+        }
         // phase 1: client -> server
         sleep_ms(ms(&plan["cs"]["reader_delay_ms"]));
         let to = plan["cs"]["read_to_us"].as_u64().filter(|_| matches!(s, Stream::T(_))).map(Duration::from_micros);
@@ -350,6 +404,7 @@ fn run_stream_plan(id: usize, plan: &Value, workdir: &str) -> Value {
     let fam_c = fam.clone();
     let client = std::thread::spawn(move || {
         let plan = plan_c;
+        let _guard = DeadOnDrop(stage_c.clone());
         let mut log = Log { seq: seq_c, t0, evs: Vec::new() };
         let early = plan["connect_before_listen"].as_bool().unwrap_or(false);
         let connect = |log: &mut Log, kind: &str, port: u64| -> Option<Stream> {
@@ -384,7 +439,12 @@ fn run_stream_plan(id: usize, plan: &Value, workdir: &str) -> Value {
                 "timeout" => "connect_to",
                 _ => "connect",
             };
-            log.done(opname, st, json!({"res": res, "errno": errno, "d": if kind == "timeout" { d_us as i64 } else { -1 }, "listening": port != 1}));
+            let (snb, scx) = match &r {
+                Ok(Ok(Some(s))) => fd_flags(s.fd()),
+                _ => (false, false),
+            };
+            log.done(opname, st, json!({"res": res, "errno": errno, "d": if kind == "timeout" { d_us as i64 } else { -1 }, "listening": port != 1,
+                                        "s_nonblock": snb, "s_cloexec": scx}));
             r.ok().and_then(Result::ok).flatten()
         };
         let kind = plan["connect"]["kind"].as_str().unwrap_or("plain").to_string();
@@ -408,6 +468,12 @@ fn run_stream_plan(id: usize, plan: &Value, workdir: &str) -> Value {
         }
         let Some(mut s) = s else { return log.evs };
         set_bufs(s.fd(), plan["sndbuf"].as_i64().unwrap_or(0), plan["rcvbuf"].as_i64().unwrap_or(0));
+        if let (Some(d), Stream::T(_)) = (plan["silent_us"].as_u64(), &s) {
+            stage_c.reach(1);                // connected, silent from here on
+            stage_c.wait(2);                 // the server's timed read on its new stream came back
+            silent_read(&mut log, &mut s, 2, d);
+            stage_c.reach(3);
+        }
         sleep_ms(ms(&plan["cs"]["writer_delay_ms"]));
         if !write_all_chunks(&mut log, &mut s, 1, plan["cs"]["n"].as_u64().unwrap(), &u64s(&plan["cs"]["wchunks"])) {
             return log.evs;
@@ -447,7 +513,7 @@ fn watchdog() {
             let cur = (CUR.load(Ordering::Relaxed), PROGRESS.load(Ordering::Relaxed));
             if cur != last.0 {
                 last = (cur, Instant::now());
-            } else if cur.0 >= 0 && last.1.elapsed() > Duration::from_secs(15) {
+            } else if cur.0 >= 0 && last.1.elapsed() > Duration::from_secs(8) {
                 let cur = cur.0;
                 println!("{{\"hang\":{cur}}}");
                 unsafe { libc::_exit(43) };
@@ -798,6 +864,67 @@ impl RawCompat for TcpListener {
     }
 }
 
+/// Every constructor of a stream, on both families: the mode (O_NONBLOCK, FD_CLOEXEC) of what it hands out.
+/// Single-threaded: a connect to a listening socket completes without accept (backlog).
+fn ctors_mode(workdir: &str) {
+    let report = |fam: &str, side: &str, ctor: &str, fd: i32| {
+        let (nb, cx) = fd_flags(fd);
+        println!("{}", json!({"ev": "ctor", "fam": fam, "side": side, "ctor": ctor, "nonblock": nb, "cloexec": cx}));
+    };
+    for round in 0..3 {
+        // ---- unix
+        let path = format!("{workdir}/ctor{round}.sock");
+        let _ = std::fs::remove_file(&path);
+        let up = UnixString::try_from_str(&path).unwrap();
+        let mut ul = UnixListener::bind(&up).unwrap();
+        let c = if round == 1 { UnixStream::try_connect(&up).unwrap().unwrap() } else { UnixStream::connect(&up).unwrap() };
+        report("unix", "c", if round == 1 { "try_connect" } else { "connect" }, c.as_raw_fd().value());
+        let a = match round {
+            0 => ul.accept().unwrap(),
+            1 => loop {
+                if let Some(s) = ul.try_accept().unwrap() {
+                    break s;
+                }
+                sleep_ms(1);
+            },
+            _ => ul.accept_with_timeout(Duration::from_secs(5)).unwrap(),
+        };
+        report("unix", "s", ["accept", "try_accept", "accept_to"][round], a.as_raw_fd().value());
+        let _ = std::fs::remove_file(&path);
+        // ---- tcp
+        let mut tl = TcpListener::bind(&SocketAddress::new(Ip::V4([127, 0, 0, 1]), 0)).unwrap();
+        let a = format!("{:?}", tl.local_addr().unwrap());
+        let port: u16 = a.rsplit("port: ").next().unwrap().trim_end_matches(|c: char| !c.is_ascii_digit()).parse().unwrap();
+        let addr = SocketAddress::new(Ip::V4([127, 0, 0, 1]), port);
+        let c = match round {
+            0 => TcpStream::connect(&addr).unwrap(),
+            1 => match TcpStream::try_connect(&addr).unwrap() {
+                TcpTryConnect::Connected(s) => s,
+                TcpTryConnect::InProgress(p) => p.connect_blocking().unwrap(),
+            },
+            _ => TcpStream::connect_with_timeout(&addr, Duration::from_secs(5)).unwrap(),
+        };
+        report("tcp", "c", ["connect", "try_connect", "connect_to"][round], c.as_raw_fd().value());
+        let a = match round {
+            0 => tl.accept().unwrap(),
+            1 => {
+                let mut n = 0;
+                loop {
+                    if let Some(s) = tl.try_accept().unwrap() {
+                        break s;
+                    }
+                    n += 1;
+                    assert!(n < 5000, "try_accept never saw the established connection");
+                    sleep_ms(1);
+                }
+            }
+            _ => tl.accept_with_timeout(Duration::from_secs(5)).unwrap(),
+        };
+        report("tcp", "s", ["accept", "try_accept", "accept_to"][round], a.as_raw_fd().value());
+    }
+    println!("{}", json!({"ev": "end"}));
+}
+
 fn main() {
     std::panic::set_hook(Box::new(|info| {
         if !IN_OP.load(Ordering::Relaxed) {
@@ -811,6 +938,7 @@ fn main() {
         "fdpass" => fdpass_mode(&a[2], &a[3], skip(4)),
         "cmsgiter" => cmsgiter_mode(&a[2], skip(3)),
         "tryops" => tryops_mode(&a[2]),
+        "ctors" => ctors_mode(&a[2]),
         _ => panic!("usage"),
     }
 }
